@@ -104,6 +104,28 @@ def build(ctx):
     g.trace('tr_crf_Frc', [('v', 'V6'), ('f', 'V6')], lambda v, f: SpatialVelocity(v).cross(SpatialForce(f)).A)
     g.trace('tr_crf_Mom', [('v', 'V6'), ('f', 'V6')], lambda v, f: SpatialVelocity(v).cross(SpatialMomentum(f)).A)
     g.trace('tr_fdot', [('f', 'V6'), ('m', 'V6')], lambda f, m: SpatialForce(f).dot(m))
+    # two-valued right operand (element-wise since /repo 0da5cb1): element k of the result, for SE3 *, cross, inertia *
+    def two(C, a, b):
+        o = C([a, b])
+        assert len(o) == 2
+        return o
+
+    def elem(res, k, C):
+        assert type(res) is C and len(res) == 2, (type(res), len(res))
+        return res[k].A
+    for k in (0, 1):
+        g.trace(f'tr_se3_Vel_2_{k}', [('X', 'M44'), ('a', 'V6'), ('b', 'V6')],
+                (lambda k: lambda X, a, b: elem(SE3(X, check=False) * two(SpatialVelocity, a, b), k, SpatialVelocity))(k), sampler=se3_sampler_with(2))
+        g.trace(f'tr_se3_Frc_2_{k}', [('X', 'M44'), ('a', 'V6'), ('b', 'V6')],
+                (lambda k: lambda X, a, b: elem(SE3(X, check=False) * two(SpatialForce, a, b), k, SpatialForce))(k), sampler=se3_sampler_with(2))
+        g.trace(f'tr_crm_2_{k}', [('v', 'V6'), ('a', 'V6'), ('b', 'V6')],
+                (lambda k: lambda v, a, b: elem(SpatialVelocity(v).cross(two(SpatialVelocity, a, b)), k, SpatialAcceleration))(k))
+        g.trace(f'tr_crf_2_{k}', [('v', 'V6'), ('a', 'V6'), ('b', 'V6')],
+                (lambda k: lambda v, a, b: elem(SpatialVelocity(v).cross(two(SpatialMomentum, a, b)), k, SpatialForce))(k))
+        g.trace(f'tr_I_acc_2_{k}', [('J', 'M66'), ('a', 'V6'), ('b', 'V6')],
+                (lambda k: lambda J, a, b: elem(mk_inertia(J) * two(SpatialAcceleration, a, b), k, SpatialForce))(k))
+        g.trace(f'tr_I_vel_2_{k}', [('J', 'M66'), ('a', 'V6'), ('b', 'V6')],
+                (lambda k: lambda J, a, b: elem(mk_inertia(J) * two(SpatialVelocity, a, b), k, SpatialMomentum))(k))
     # adjoint
     g.trace('tr_Ad', [('X', 'M44')], lambda X: SE3(X, check=False).Ad(), sampler=se3_sampler_with(0))
     # inertia * acceleration / velocity
@@ -127,7 +149,7 @@ def build(ctx):
 
 # ----------------------------------------------------------------------------------------------- T-tab
 COQ_HDR = "From Coq Require Import List Bool Arith.\nFrom SM Require Import Model.C20_Inertia.\n"
-LENS = [1, 2, 3, 6]
+LENS = [0, 1, 2, 3, 6]
 NOTSV = [('float', lambda: 1.5), ('ndarray6', lambda: np.ones(6)), ('SE3', lambda: SE3()), ('SpatialInertia', lambda: SpatialInertia()),
          ('Twist3', lambda: Twist3()), ('list6', lambda: [1.0, 2, 3, 4, 5, 6]), ('None', lambda: None)]
 
@@ -135,13 +157,15 @@ NOTSV = [('float', lambda: 1.5), ('ndarray6', lambda: np.ones(6)), ('SE3', lambd
 def mk(k, n, rng):
     """object of class k holding n values, and the (6, n) array of its columns"""
     A = rng.normal(size=(6, n)) * 10 ** rng.uniform(-1, 1)
-    obj = CLS[k](A[:, 0].copy()) if n == 1 else CLS[k](A.copy())
+    obj = CLS[k].Empty() if n == 0 else CLS[k](A[:, 0].copy()) if n == 1 else CLS[k](A.copy())
     assert len(obj) == n
     return obj, A
 
 
 def columns(obj):
-    return np.column_stack([np.asarray(x, float) for x in obj.data])
+    if len(obj.data) == 0:
+        return np.zeros((6, 0))
+    return np.column_stack([np.asarray(x, float).reshape(6) for x in obj.data])
 
 
 def observe(thunk):
@@ -239,12 +263,15 @@ def tables(ctx):
     rname = lambda r: 'NotSV' if r is None else f'(SV {r})'
     # ---- all model / expected cells evaluated inside Coq (vm_compute), one term per cell
     as_cells = [(l, nl, r, nr) for l in keys for nl in LENS for r in keys + [None] for nr in LENS]
-    cr_cells = [(l, r) for l in keys for r in keys + [None]]
+    cr_cells = [(l, r, n) for l in keys for r in keys + [None] for n in LENS]
+    im_cells = [(r, n) for r in keys + [None] for n in LENS]
+    se_cells = [(c, n) for c in keys for n in LENS]
     terms = [f"(addsub_model {l} {nl} {rname(r)} {nr}, addsub_expected {l} {nl} {rname(r)} {nr})" for l, nl, r, nr in as_cells]
     terms += [f"(neg_model {l} {n}, Some ({l}, {n}))" for l in keys for n in LENS]
-    terms += [f"(cross_model {l} {rname(r)}, cross_expected {l} {rname(r)})" for l, r in cr_cells]
-    terms += [f"(imul_model {rname(r)}, imul_expected {rname(r)})" for r in keys + [None]]
-    terms += [f"(se3mul_model {c}, Some ({c}, 1))" for c in keys]
+    terms += [f"(copy_model {l} {n}, Some ({l}, {n}))" for l in keys for n in LENS]
+    terms += [f"(cross_model {l} {rname(r)} {n}, cross_expected {l} {rname(r)} {n})" for l, r, n in cr_cells]
+    terms += [f"(imul_model {rname(r)} {n}, imul_expected {rname(r)} {n})" for r, n in im_cells]
+    terms += [f"(se3mul_model {c} {n}, Some ({c}, {n}))" for c, n in se_cells]
     terms += ["(iadd_model true, iadd_expected true)", "(iadd_model false, iadd_expected false)"]
     vals = ctx.coq_eval(COQ_HDR, terms, name='tab', chunk=1000)
     it = iter(vals)
@@ -268,35 +295,46 @@ def tables(ctx):
             x, A = mk(l, n, rng)
             judge(ctx, 'neg', 'any', f"{l}[{n}]", observe(lambda: -x), model, expected, lambda res, A=A: close(columns(res), -A))
 
-    # ---- cross product: operand classes (single-valued)
-    for l, r in cr_cells:
+    # ---- copy constructor C(obj): same class, length and values (multi-valued: /repo df7016a)
+    for l in keys:
+        for n in LENS:
+            model, expected = nxt()
+            x, A = mk(l, n, rng)
+            judge(ctx, 'copy', 'any', f"{l}({l}[{n}])", observe(lambda: CLS[l](x)), model, expected, lambda res, A=A: close(columns(res), A))
+
+    # ---- cross product: operand classes; single-valued left operand, n-valued right operand (element-wise: /repo 0da5cb1)
+    for l, r, n in cr_cells:
         model, expected = nxt()
         x, A = mk(l, 1, rng)
-        rights = [(r,) + mk(r, 1, rng)] if r is not None else [(nm, f(), None) for nm, f in NOTSV]
+        rights = [(r,) + mk(r, n, rng)] if r is not None else [(nm, f(), None) for nm, f in NOTSV]
         for rn, y, B in rights:
             cat = ('force-left' if l not in MOTION else 'non-spatial-operand' if r is None else
                    f'motion-x-{r}' if r in MOTION else 'motion-x-force')
+            if n != 1 and r is not None and not (l in MOTION and r == 'Acc'):      # the acceleration-operand defect is one root cause for every length
+                cat += '-multi'
             vok = None
             if B is not None and l in MOTION:
-                ref = (crm_np(A[:, 0]) if r in MOTION else -crm_np(A[:, 0]).T) @ B[:, 0]
-                vok = lambda res, ref=ref: close(res.A, ref, 1e-12)
-            judge(ctx, 'cross', cat, f"{l}.cross({rn})", observe(lambda: x.cross(y)), model, expected, vok)
+                ref = (crm_np(A[:, 0]) if r in MOTION else -crm_np(A[:, 0]).T) @ B
+                vok = lambda res, ref=ref: close(columns(res), ref, 1e-12)
+            judge(ctx, 'cross', cat, f"{l}.cross({rn}[{n}])", observe(lambda: x.cross(y)), model, expected, vok)
 
-    # ---- inertia * vector, SE3 * vector: result classes
+    # ---- inertia * vector, SE3 * vector: result classes and values, n-valued right operand
     J = SpatialInertia(2.0, [0.1, -0.2, 0.3], np.diag([1.0, 2.0, 3.0]))
-    for r in keys + [None]:
+    for r, n in im_cells:
         model, expected = nxt()
-        rights = [(r,) + mk(r, 1, rng)] if r is not None else [(nm, f(), None) for nm, f in NOTSV]
+        rights = [(r,) + mk(r, n, rng)] if r is not None else [(nm, f(), None) for nm, f in NOTSV]
         for rn, y, B in rights:
-            vok = (lambda res, B=B: close(res.A, np.asarray(J.A, float) @ B[:, 0], 1e-12)) if B is not None else None
-            judge(ctx, 'imul', f'inertia-x-{r or "non-spatial"}', f"SpatialInertia * {rn}", observe(lambda: J * y), model, expected, vok)
+            vok = (lambda res, B=B: close(columns(res), np.asarray(J.A, float) @ B, 1e-12)) if B is not None else None
+            cat = f'inertia-x-{r or "non-spatial"}' + ('-multi' if n != 1 and r is not None else '')
+            judge(ctx, 'imul', cat, f"SpatialInertia * {rn}[{n}]", observe(lambda: J * y), model, expected, vok)
     T = SE3(0.3, -0.2, 0.5) * SE3.Rx(0.4) * SE3.Rz(-1.1)
-    for c in keys:
+    X = ad_np(T.A)
+    for c, n in se_cells:
         model, expected = nxt()
-        y, B = mk(c, 1, rng)
-        X = ad_np(T.A)
-        ref = (X if c in MOTION else X.T) @ B[:, 0]
-        judge(ctx, 'se3mul', 'any', f"SE3 * {c}", observe(lambda: T * y), model, expected, lambda res, ref=ref: close(res.A, ref, 1e-12))
+        y, B = mk(c, n, rng)
+        ref = (X if c in MOTION else X.T) @ B
+        judge(ctx, 'se3mul', 'single' if n == 1 else 'multi', f"SE3 * {c}[{n}]", observe(lambda: T * y), model, expected,
+              lambda res, ref=ref: close(columns(res), ref, 1e-12))
 
     # ---- inertia + inertia (and + anything else)
     J2 = SpatialInertia(3.0, [0.0, 1.0, -0.5], np.diag([2.0, 1.0, 4.0]))
@@ -325,21 +363,14 @@ def tables(ctx):
                          f"SpatialInertia + {rn}: expected {es}, the implementation {what}", {'op': 'iadd', 'right': rn, 'observed': o_s, 'expected': es})
     assert next(it, None) is None
 
-    # ---- multi-valued operands of the products: element-wise result or an exception, never silently wrong values
+    # ---- multi-valued LEFT operand of cross (self.A is a list): not supported; an exception or the element-wise
+    #      result, never silently wrong values
     v1, a1 = mk('Vel', 1, rng)
     for n in (2, 3, 6):
-        for c in keys:
-            Y, B = mk(c, n, rng)
-            X = ad_np(T.A)
-            M = X if c in MOTION else X.T
-            multi(ctx, 'se3mul', f"SE3 * {c}[{n}]", lambda: T * Y, M @ B)
-            C0 = crm_np(a1[:, 0])
-            multi(ctx, 'cross', f"Vel.cross({c}[{n}])", lambda: v1.cross(Y), (C0 if c in MOTION else -C0.T) @ B)
-            if c in MOTION:
-                multi(ctx, 'imul', f"SpatialInertia * {c}[{n}]", lambda: J * Y, np.asarray(J.A, float) @ B)
-                Yl, Bl = mk(c, n, rng)
-                multi(ctx, 'cross-left', f"{c}[{n}].cross(Vel)", lambda: Yl.cross(v1),
-                      np.column_stack([crm_np(Bl[:, i]) @ a1[:, 0] for i in range(n)]))
+        for c in MOTION:
+            Yl, Bl = mk(c, n, rng)
+            multi(ctx, 'cross-left', f"{c}[{n}].cross(Vel)", lambda: Yl.cross(v1),
+                  np.column_stack([crm_np(Bl[:, i]) @ a1[:, 0] for i in range(n)]))
 
 
 def multi(ctx, site, cell, thunk, ref):
@@ -350,7 +381,7 @@ def multi(ctx, site, cell, thunk, ref):
         return                                       # not supported for multi-valued operands: rejected, nothing wrong returned
     ok = obs[0] == 'Value' and obs[2] == ref.shape[1] and close(columns(obs[3]), ref, 1e-12)[0]
     if not ok:
-        ctx.fail(f'multi:{site}:wrong-values', f"{cell} returns an object whose values are not the element-wise products",
+        ctx.fail(f'multi-left:{site}:wrong-values', f"{cell} returns an object whose values are not the element-wise products",
                  {'site': site, 'cell': cell, 'observed': [np.asarray(x, float).tolist() for x in obs[3].data] if obs[0] == 'Value' else obs,
                   'expected_columns': ref.T.tolist()})
 
@@ -636,7 +667,7 @@ def forms(ctx):
 
 
 def run(ctx):
-    ctx.rule = ("obligations: theorems of theories/Props/C20.v, C20_inertia.v, C20_se3.v (values, over the traces regenerated from /repo "
+    ctx.rule = ("obligations: theorems of theories/Props/C20.v, C20_inertia.v, C20_se3.v, C20_multi.v (values, over the traces regenerated from /repo "
                 "and the hand model of the inertia constructor) and theories/Props/C20_tab.v (class/length tables); evaluations: Sym==Num / "
                 "T-num cases + every cell of the class/length tables run on the implementation + oracle evaluations of each law "
                 "at magnitudes 1e-6..1e6; a case is distinct by its (law or cell, input) signature")
@@ -650,7 +681,7 @@ def run(ctx):
     if rc != 0:
         ctx.fail('gen:compile', 'generated traces do not compile: ' + err[-800:], no_input=True)
         return
-    for f in ('C20.v', 'C20_inertia.v', 'C20_se3.v', 'C20_tab.v'):       # independent groups
+    for f in ('C20.v', 'C20_inertia.v', 'C20_se3.v', 'C20_multi.v', 'C20_tab.v'):       # independent groups
         ctx.prove('theories/Props/' + f)
     with ctx.timed('correspond'):
         sym_num(ctx, g, MOD, ctx.n(25, 400))
